@@ -1287,7 +1287,8 @@ class Function(Ring):
     ndim = property(get_ndim)
 
     def get_size(self):
-        return self.x.size
+        # the value may be a plain Python number (graphs recorded from / evaluated on lists)
+        return numpy.size(self.x)
     size = property(get_size)
 
     def get_flat(self):
